@@ -173,6 +173,7 @@ def run(ctx):
     trunc_rule(ctx, syn)
     slotloop_rule(ctx, syn)
     tmpsync_rule(ctx, prog)
+    lateid_rule(ctx, syn)
 
     # ---------------- REIDX
     r_re = ctx.rule("C03.REIDX", "reindex(): every id map is remapped with the gap table of its own store, under the same emptiness guard; gaps()/Handle::reindex agree on the gap convention; indices mentioning a remapped handle type are remapped")
@@ -565,3 +566,33 @@ def tmpsync_rule(ctx, prog):
         r.hit("sync#%d" % (i + 1), sample={"call_block": x, "line": b.blocks[x]["t"].get("line")})
         if any(rt == 0 or b.can_reach(0, rt, avoid={x}) for rt in rets) and x != 0:
             ctx.report(r, "skippable#%d" % (i + 1), "propagate_full_config can return without the set_resolve_temp_ids call of line %s: on that path (e.g. a store without resources and datasets yet) the id map keeps treating \"!A<n>\" as a handle although the configuration says such ids are ordinary public ids (or the reverse), so ids resolve to another item or to none" % b.blocks[x]["t"].get("line"), b.file, b.blocks[x]["t"].get("line"))
+
+
+# ---------------------------------------------------------------------- LATEID
+def lateid_rule(ctx, syn):
+    """StoreFor::insert registers the id an item carries at that moment.  An item that is inserted first and given its
+    id afterwards (a sub-store whose @id is read after the sub-store was created) must be registered by hand."""
+    from synq import children
+    r = ctx.rule("C03.LATEID", "an identifier assigned to an item that is already in a store (fetched with get_mut) is registered in that store's id map in the same block")
+    n = 0
+    for fn in syn.fns:
+        if not fn.body:
+            continue
+        for node in walk(fn.body):
+            if node.get("k") != "if":
+                continue
+            c = strip(node["cond"])
+            if c.get("k") != "letexpr" or "get_mut(" not in unparse(c["e"]).replace(" ", ""):
+                continue
+            names = set(pat_names(c["pat"]))
+            for st_ in node["then"]["stmts"]:
+                e = st_.get("e") if st_.get("k") == "exprstmt" else None
+                if e and e.get("k") == "assign" and strip(e["left"]).get("k") == "field" and strip(e["left"])["member"] == "id" and strip(strip(e["left"])["base"]).get("k") == "path" and strip(strip(e["left"])["base"])["path"][0] in names:
+                    n += 1
+                    key = "%s|%s.id" % (fn.qual, strip(strip(e["left"])["base"])["path"][0])
+                    block_src = " ".join(unparse(x) for x in node["then"]["stmts"])
+                    reg = re.search(r"idmap\w*(\(\))?\.(register|insert)\(|idmap_mut\(\)", block_src) is not None
+                    r.hit(key, sample={"fn": fn.qual, "assigns": unparse(e)[:50], "registers": reg})
+                    if not reg:
+                        ctx.report(r, key, "%s gives an item that is already stored its identifier (`%s`) without registering it in the id map: the identifier is shown by the item but does not resolve to it" % (fn.qual, unparse(e)[:60]), fn.file, e.get("l"))
+    ctx.floor(r, n, 1, "identifiers assigned after insertion")
